@@ -14,16 +14,16 @@ theorem failedOut_bytes (op : ROp) (e : Err) : (failedOut op e).bytes = [] := by
   cases op <;> rfl
 
 /-- once the sticky error is set, every later call fails with it and hands over nothing -/
-theorem failed_run (C : Crypto) (r : Reader) (e : Err) (ops : List ROp) :
-    SReader.run C ⟨r, some e⟩ ops = ops.map (fun op => failedOut op e) := by
+theorem failed_run (C : Crypto) (r : Reader) (e : Err) (later : List Bytes) (ops : List ROp) :
+    SReader.run C ⟨r, some e, later⟩ ops = ops.map (fun op => failedOut op e) := by
   induction ops with
   | nil => rfl
   | cons op ops ih =>
     simp only [SReader.run, SReader.step, sticky_fact, ↓reduceIte, List.map_cons]
     rw [ih]
 
-theorem failed_run_bytes (C : Crypto) (r : Reader) (e : Err) (ops : List ROp) :
-    ((SReader.run C ⟨r, some e⟩ ops).map ROut.bytes).flatten = [] := by
+theorem failed_run_bytes (C : Crypto) (r : Reader) (e : Err) (later : List Bytes) (ops : List ROp) :
+    ((SReader.run C ⟨r, some e, later⟩ ops).map ROut.bytes).flatten = [] := by
   rw [failed_run]
   induction ops with
   | nil => rfl
@@ -31,7 +31,7 @@ theorem failed_run_bytes (C : Crypto) (r : Reader) (e : Err) (ops : List ROp) :
 
 /-- a continuing schedule hands over exactly the bytes of the schedule cut at the first error -/
 theorem srun_bytes (C : Crypto) (ops : List ROp) : ∀ r : Reader,
-    ((SReader.run C ⟨r, none⟩ ops).map ROut.bytes).flatten = ((Reader.run C r ops).map ROut.bytes).flatten := by
+    ((SReader.run C ⟨r, none, []⟩ ops).map ROut.bytes).flatten = ((Reader.run C r ops).map ROut.bytes).flatten := by
   induction ops with
   | nil => intro r; rfl
   | cons op ops ih =>
@@ -60,13 +60,6 @@ theorem client_failed (C : Crypto) (c : CReader) (e : Err) (he : c.err = some e)
     (∀ n, c.readS C now n = (.fail e, c)) ∧ c.writeToS C now = (.copied [] (some e), c) ∧
     (∀ st, c.tunnelS C now st = (.copied [] (some e), c)) := by
   refine ⟨fun n => ?_, ?_, fun st => ?_⟩ <;>
-    simp [CReader.readS, CReader.writeToS, CReader.tunnelS, CReader.sticky, sticky_fact, he, failedOut]
-
-/-- while no error is recorded the sticky wrapper returns what the underlying call returns -/
-theorem client_sticky_transparent (C : Crypto) (c : CReader) (he : c.err = none) (now : Int) (n : Nat) :
-    (c.readS C now n).1 = (c.read C now n).1 ∧ (c.writeToS C now).1 = (c.writeTo C now).1 ∧
-    (∀ st, (c.tunnelS C now st).1 = (c.tunnel C now st).1) := by
-  refine ⟨?_, ?_, fun st => ?_⟩ <;>
-    simp [CReader.readS, CReader.writeToS, CReader.tunnelS, CReader.sticky, sticky_fact, he]
+    simp [CReader.readS, CReader.writeToS, CReader.tunnelS, CReader.stepT, sticky_fact, he, failedOut]
 
 end SSV.Stream
